@@ -227,6 +227,20 @@ def run(pid, tier, seed):
         viol += 1
     accepted += acc4
     everything = everything + executed4
+    if pid == "C06":
+        # known finding zone-tie (known_findings.txt): run on the real sink every time; reported as KNOWN-FINDING when it
+        # shows exactly as recorded, as a violation when it shows differently, not at all once it is gone
+        kz = R.execute(bdir, [R.gen_zone_tie(9001)], work, f"k{seed}")
+        _, kfail = C.validate_runs("Trace_Rotation", "Trace_Rotation.cfg", [e for (_, e, _) in kz], work, f"kv{seed}", chunk=5, timeout=600)
+        for f in kfail:
+            inv = (f.get("violation") or "").split(" ")[-1]
+            if inv == "SurvivorsAreRecentSuffix" and "zone-tie" in C.open_findings(pid):
+                C.report_known(pid, "key=zone-tie " + C.open_findings(pid)["zone-tie"]["text"])
+            else:
+                rp = C.save_replay(pid, f"zone_tie_{seed}.json", {"kind": "trace-rejected", "violated": f.get("violation"),
+                                                                  "scenario": kz[0][0].to_dict(), "rejected_event": f["event"], "tlc": f["tlc_tail"]})
+                C.report_violation(pid, rp)
+                viol += 1
 
     nt = sum(1 for (s, _, info) in everything if nontrivial(pid, s, info))
     tot = lambda k: sum(info[k] for (_, _, info) in everything)
